@@ -16,6 +16,15 @@ NOTES = ("Every check = TLA+ specification under spec/ checked by TLC + conforma
          "known_findings.json lists genuine defects (known / fixed).")
 NOT_APPLICABLE = {}
 CHECKS = {
+    "C04": {
+        "level": "model_checking",
+        "technique": "TLA+ spec Defaulting.tla (CSS defaulting vs lazy Get with cache, all access orders) model-checked by TLC; every kind assignment replayed on every supported property through tree.GetAllComputedStyles",
+        "text": "TLC explores all interleavings of lazy Gets over all kind assignments and proves order independence and totality of the model; the "
+                "harness instantiates each assignment with all 177 properties in three access orders and requires the computed values to fall into "
+                "the specification's classes (inherit / initial / none / explicit), with the inherited set and ~95 initial values pinned in the "
+                "specification; unit ratios, em/rem/% font-size chains and bolder/lighter chains are compared with integers computed in TLA+.",
+        "note": "Context-free explicit values only; ex/ch not generated; a few private pseudo-properties only checked for totality; UA sheet emptied.",
+    },
     "C18": {
         "level": "model_checking",
         "technique": "TLA+ specs SvgPath.tla (path interpreter transition system, arc/shape/viewport geometry) and SvgRefs.tla (reference walk with active set) model-checked by TLC; every terminal state replayed through svg.Parse + Draw on a recording canvas",
